@@ -6,10 +6,10 @@ import (
 	"fmt"
 	"math/rand/v2"
 	"strings"
-
 )
 
 type textLevel struct {
+	light     bool
 	valids    int
 	flips     int
 	jsonNodes int // JSON tree nodes attacked per valid document
@@ -17,17 +17,18 @@ type textLevel struct {
 	randoms   int
 	bigDigits int
 	embedded  bool   // reduced generator for strings inside JSON documents
+	directExp string // exponent used in hostile strings fed directly to a text entry point
 	nodeExp   string // exponent used in hostile strings placed inside JSON documents
 }
 
 func textLevelOf(b *recB, light bool) textLevel {
 	switch {
 	case light:
-		return textLevel{valids: 2, flips: 40, jsonNodes: 10, nests: []int{100, 10001}, randoms: 4, bigDigits: 20000, nodeExp: "100000"}
+		return textLevel{light: true, valids: 1, flips: 16, jsonNodes: 4, nests: []int{100, 10001}, randoms: 2, bigDigits: 20000, nodeExp: "10000", directExp: "100000"}
 	case b.Quick():
-		return textLevel{valids: 4, flips: 160, jsonNodes: 28, nests: []int{31, 100, 9999, 10001, 100000}, randoms: 10, bigDigits: 100000, nodeExp: "100000"}
+		return textLevel{valids: 4, flips: 160, jsonNodes: 28, nests: []int{31, 100, 9999, 10001, 100000}, randoms: 10, bigDigits: 100000, nodeExp: "100000", directExp: "1000000"}
 	default:
-		return textLevel{valids: 40, flips: 1500, jsonNodes: 1200, nests: []int{31, 100, 9999, 10001, 100000, 1000000, 4000000}, randoms: 100, bigDigits: 1000000, nodeExp: "1000000"}
+		return textLevel{valids: 12, flips: 1000, jsonNodes: 300, nests: []int{31, 100, 9999, 10001, 100000, 1000000, 4000000}, randoms: 100, bigDigits: 1000000, nodeExp: "1000000", directExp: "1000000"}
 	}
 }
 
@@ -213,6 +214,9 @@ func textAttacks(orig []byte, rng *rand.Rand, lv textLevel, exp string, emit fun
 	}
 	// bulk
 	for _, c := range []byte{'a', '0', ' ', ',', 0} {
+		if lv.light {
+			break
+		}
 		emit(tatk{"bulk", fmt.Sprintf("%q", c), bytes.Repeat([]byte{c}, 1<<18)})
 	}
 	// random
@@ -281,7 +285,7 @@ func fuzzTextEntry(b *recB, f *feeder, e tEntry, rng *rand.Rand, lv textLevel) {
 			l2 := lv
 			l2.nests = nil
 			l2.randoms = 1
-			textAttacks(v, rng, l2, "1000000", func(a tatk) {
+			textAttacks(v, rng, l2, lv.directExp, func(a tatk) {
 				if a.class == "bulk" {
 					return
 				}
@@ -289,11 +293,11 @@ func fuzzTextEntry(b *recB, f *feeder, e tEntry, rng *rand.Rand, lv textLevel) {
 			})
 			continue
 		}
-		textAttacks(v, rng, lv, "1000000", func(a tatk) { f.add(a.class, a.sub, a.data) })
+		textAttacks(v, rng, lv, lv.directExp, func(a tatk) { f.add(a.class, a.sub, a.data) })
 	}
 	// cross-seeding: the own valid outputs of the OTHER text formats of the repository
 	// (e.g. a currency with a unit for Currency.UnmarshalText, whose own output is a bare integer)
-	if e.Kind != "json" {
+	if e.Kind != "json" && !lv.light {
 		l2 := lv
 		l2.flips = 8
 		l2.embedded = true
@@ -307,7 +311,7 @@ func fuzzTextEntry(b *recB, f *feeder, e tEntry, rng *rand.Rand, lv textLevel) {
 				continue
 			}
 			f.add("cross-valid", o.Name, cv)
-			textAttacks(cv, rng, l2, "1000000", func(a tatk) { f.add(a.class, "cross/"+a.sub, a.data) })
+			textAttacks(cv, rng, l2, lv.directExp, func(a tatk) { f.add(a.class, "cross/"+a.sub, a.data) })
 		}
 	}
 }
@@ -399,6 +403,20 @@ func nodeAt(v any, target int, idx *int) (any, bool) {
 	return nil, false
 }
 
+func mapLike(m map[string]any) bool {
+	for k := range m {
+		if k == "" {
+			return false
+		}
+		for i := 0; i < len(k); i++ {
+			if (k[i] < '0' || k[i] > '9') && !(i == 0 && k[i] == '-') {
+				return false
+			}
+		}
+	}
+	return true
+}
+
 type rawJSON string
 
 func (r rawJSON) MarshalJSON() ([]byte, error) { return []byte(r), nil }
@@ -419,6 +437,24 @@ func jsonAttacks(doc []byte, rng *rand.Rand, lv textLevel, emit func(tatk)) {
 		rng.Shuffle(len(targets), func(i, j int) { targets[i], targets[j] = targets[j], targets[i] })
 		targets = targets[:lv.jsonNodes]
 		targets = append(targets, 0)
+		// map-like objects (empty, or all keys numeric) are always attacked: their keys are indices
+		in := map[int]bool{}
+		for _, t := range targets {
+			in[t] = true
+		}
+		extra := 0
+		for i := 0; i < total && extra < 24; i++ {
+			if in[i] {
+				continue
+			}
+			idx := 0
+			if nd, ok := nodeAt(root, i, &idx); ok {
+				if m, ok := nd.(map[string]any); ok && mapLike(m) {
+					targets = append(targets, i)
+					extra++
+				}
+			}
+		}
 	}
 	out := func(class, sub string, target int, f func(any) any) {
 		idx := 0
@@ -519,7 +555,11 @@ func jsonAttacks(doc []byte, rng *rand.Rand, lv textLevel, emit func(tatk)) {
 				}
 			}
 		case []any:
-			for _, rep := range []int{100, 10000} {
+			reps := []int{100, 10000}
+			if lv.light {
+				reps = []int{100}
+			}
+			for _, rep := range reps {
 				rep := rep
 				out("jsonarray", fmt.Sprintf("repeat/%d", rep), tg, func(n any) any {
 					a := n.([]any)
